@@ -88,7 +88,8 @@ def probe(module, tag, recorder, method="__call__"):
             out = orig(self, *args, **kwargs)
             t = getattr(self, "_rlsim_tag", None)
             if t is not None:
-                arrs = [a for a in args if hasattr(a, "shape")]
+                arrs = [a for a in args if hasattr(a, "shape") and hasattr(a, "dtype")
+                        and getattr(a.dtype, "kind", "") in "fiub"]
                 jax.debug.callback(_make_cb(t), arrs, out)
             return out
 
